@@ -145,7 +145,7 @@ func (g *gen) text(f string) string {
 	case "byte":
 		return string(letters[g.r.Intn(len(letters))])
 	}
-	n := []int{2, 10, 55, 56, 100, 256}[g.r.Intn(6)]
+	n := []int{2, 10, 55, 56, 100, 256, 1024}[g.r.Intn(7)]
 	b := make([]byte, n)
 	for i := range b {
 		b[i] = letters[g.r.Intn(len(letters))]
@@ -705,16 +705,20 @@ func stage(r row, what string, f func()) (ok bool) {
 }
 
 type codec struct {
-	encode func() ([]byte, error)                  // the original object
-	decode func(b []byte) (interface{}, error)     // fresh object from bytes, the way the node does it
-	obs    func(o interface{}) (v, t, h, s string) // projections of an object (original or decoded)
-	reenc  func(o interface{}) ([]byte, error)
-	orig   interface{}
-	origX  string                     // box payload as seen *before* packing: hashes and signers of the sub-transactions
-	obsX   func(o interface{}) string // the same view taken from a decoded object (GetBox on its Data)
+	encode    func() ([]byte, error)                  // the original object
+	decode    func(b []byte) (interface{}, error)     // fresh object from bytes, the way the node does it
+	obs       func(o interface{}) (v, t, h, s string) // projections of an object (original or decoded)
+	reenc     func(o interface{}) ([]byte, error)
+	orig      interface{}
+	origX     string                     // box payload as seen *before* packing: hashes and signers of the sub-transactions
+	obsX      func(o interface{}) string // the same view taken from a decoded object (GetBox on its Data)
+	mutations int
+	mrng      *rand.Rand
 }
 
 func roundTrip(r row, c codec) {
+	c.mutations, c.mrng = mutationsPerRow, rand.New(rand.NewSource(int64(len(fmt.Sprint(r["sh"])))*7919+int64(r["var"].(int))+mutationSeed))
+	r["mut"] = []int{0, 0}
 	for _, k := range []string{"v0", "v1", "t0", "t1", "h0", "h1", "s0", "s1", "b0", "b1", "x0", "x1"} {
 		r[k] = ""
 	}
@@ -759,6 +763,55 @@ func roundTrip(r row, c codec) {
 		return
 	}
 	r["reenc"], r["b1"] = "ok", hx(b1)
+	// hostile variants of the very same bytes offered to the typed decoder: a value or an error, never a panic
+	nOK, nErr := 0, 0
+	for i := 0; i < c.mutations; i++ {
+		m := mutate(c.mrng, b0)
+		if !stage(r, "decode mutated bytes "+hx(m), func() {
+			if _, err := c.decode(m); err != nil {
+				nErr++
+			} else {
+				nOK++
+			}
+		}) {
+			return
+		}
+	}
+	r["mut"] = []int{nOK, nErr}
+}
+
+// mutate returns a damaged copy of an encoding: truncated, extended, one byte flipped / replaced by a grammar
+// boundary byte, a length prefix bumped, or a slice cut out.
+func mutate(rng *rand.Rand, b []byte) []byte {
+	m := append([]byte(nil), b...)
+	if len(m) == 0 {
+		return []byte{byte(rng.Intn(256))}
+	}
+	pos := rng.Intn(len(m))
+	if rng.Intn(2) == 0 && len(m) > 8 { // headers live at the front
+		pos = rng.Intn(8)
+	}
+	switch rng.Intn(7) {
+	case 0:
+		return m[:pos]
+	case 1:
+		return append(m, byte(rng.Intn(256)))
+	case 2:
+		m[pos] ^= byte(1 << uint(rng.Intn(8)))
+	case 3:
+		m[pos] = []byte{0x00, 0x01, 0x7f, 0x80, 0x81, 0xb7, 0xb8, 0xb9, 0xbf, 0xc0, 0xc1, 0xf7, 0xf8, 0xff}[rng.Intn(14)]
+	case 4:
+		m[pos]++
+	case 5:
+		end := pos + 1 + rng.Intn(4)
+		if end > len(m) {
+			end = len(m)
+		}
+		return append(m[:pos], m[end:]...)
+	default:
+		m[pos]--
+	}
+	return m
 }
 
 func encPtr(o interface{}) ([]byte, error) { return rlp.EncodeToBytes(o) }
@@ -1260,6 +1313,11 @@ func addressRow(g *gen, sh tla.Value, r row) {
 
 // ---------------------------------------------------------------- driver
 
+var (
+	mutationsPerRow = 0
+	mutationSeed    int64
+)
+
 func drive(args []string) error {
 	fs := flag.NewFlagSet("codecshapes", flag.ContinueOnError)
 	graph := fs.String("graph", "", "TLC dot dump of MCCodecShapes (type/shape pairs as initial states)")
@@ -1267,9 +1325,11 @@ func drive(args []string) error {
 	out := fs.String("out", "shapes.ndjson", "")
 	shard := fs.String("shard", "0/1", "")
 	seed := fs.Int64("seed", 1, "")
+	muts := fs.Int("mutations", 8, "damaged variants of every encoding offered to the typed decoder")
 	if err := fs.Parse(args); err != nil {
 		return err
 	}
+	mutationsPerRow = *muts
 	parts := strings.Split(*shard, "/")
 	si, _ := strconv.Atoi(parts[0])
 	sn, _ := strconv.Atoi(parts[1])
@@ -1310,6 +1370,7 @@ func drive(args []string) error {
 		}
 		for k := 0; k < *variants; k++ {
 			gg := newGen(int64(id>>1) ^ (*seed * 1000003) ^ int64(k*7919))
+			mutationSeed = int64(id>>1) ^ (*seed * 15485863)
 			r := row{"ev": "shape", "typ": typ, "sh": sh.JSON(), "var": k}
 			if typ == "address" {
 				addressRow(gg, sh, r)
